@@ -195,6 +195,10 @@ def comp(ast, env):
         return f(*[comp(a, env) for a in ast[2]])
     if k == "mkpartial":   # a partial task as a value
         return elem.partial(ast[1], {n: comp(b, env) for n, b in ast[2].items()})
+    if k == "subrun":
+        from redun.scheduler import subrun
+
+        return subrun(comp(ast[1], env), executor="default", new_execution=ast[2], **ast[3])
     if k == "handle":
         return VH(ast[1])
     if k == "use":
